@@ -155,8 +155,17 @@ func Create(config *Config) func(db *gorm.DB) {
 				insertID -= int64(len(mapValues)-1) * schema.DefaultAutoIncrementIncrement
 			}
 
+			// a map that carries its own (non-zero) key keeps it, as the struct elements below do
+			preset := func(m map[string]interface{}) bool {
+				v, ok := m[pkFieldName]
+				if !ok && pkField != nil {
+					v, ok = m[pkField.Name]
+				}
+				return ok && v != nil && !reflect.ValueOf(v).IsZero()
+			}
+
 			for _, mapValue := range mapValues {
-				if mapValue != nil {
+				if mapValue != nil && !preset(mapValue) {
 					mapValue[pkFieldName] = insertID
 				}
 				insertID += schema.DefaultAutoIncrementIncrement
